@@ -375,7 +375,11 @@ func (m *matcher) findMatches(known *knownValue) {
 			for i, tok := range m.unknown.Tokens {
 				if tok.Offset == a[0] {
 					start = i
-				} else if tok.Offset >= a[len(a)-1]-len(tok.Text) {
+				}
+				// The token that starts the occurrence may also be the one that
+				// ends it (a known value of a single token), so this test must
+				// not be skipped for it.
+				if tok.Offset >= a[len(a)-1]-len(tok.Text) {
 					end = i
 					break
 				}
